@@ -132,6 +132,8 @@ STMTS = {
     "property": lambda n, doc: fdef(n, ["property"], doc, cls=True),
     "oldstatic": lambda n, doc: fdef(n, [], doc, cls=True).replace("(self)", "()") + f"{n} = staticmethod({n})\n",
     "oldclass": lambda n, doc: fdef(n, [], doc, cls=True).replace("(self)", "(cls)") + f"{n} = classmethod({n})\n",
+    "rewrapped": lambda n, doc: fdef(n, [], doc, cls=True).replace("(self)", "(cls)") + f"{n} = staticmethod({n})\n{n} = classmethod({n})\n",
+    "deco_then_wrapped": lambda n, doc: fdef(n, ["staticmethod"], doc, cls=True) + f"{n} = staticmethod({n})\n",
     "assign": lambda n, doc: f"{n} = 1\n" + (DOCS["one"] + "\n" if doc != "none" else ""),
     "annassign": lambda n, doc: f"{n}: int = 1\n" + (DOCS["one"] + "\n" if doc != "none" else ""),
     "annonly": lambda n, doc: f"{n}: int\n",
@@ -144,7 +146,7 @@ STMTS = {
     "nestedclass": lambda n, doc: f"class {n}:\n" + ind(f"class Inner:\n" + ind((DOCS[doc] + "\n" if DOCS[doc] else "") + "def im(self): pass")),
 }
 SKEYS = list(STMTS)
-CLASS_ONLY = ("classmethod", "staticmethod", "property", "oldstatic", "oldclass")
+CLASS_ONLY = ("classmethod", "staticmethod", "property", "oldstatic", "oldclass", "rewrapped", "deco_then_wrapped")
 WRAP = {
     "plain": lambda s: s,
     "if": lambda s: "if True:\n" + ind(s),
@@ -257,7 +259,7 @@ NK = len(SKEYS)
     parts=lambda: [[sc, i] for sc in range(2) for i in range(NK)], timeout=(240, 1800), cls="E", tracing="concrete-after-choice", twin="first",
     code=["pydoctor.astbuilder.ModuleVistor.visit_If/visit_ClassDef/_handleFunctionDef/_handleOldSchoolMethodDecoration/_handlePropertyDef/_handleAssignment*/visit_Expr/visit_Try/visit_With/visit_For",
           "pydoctor.astutils.get_docstring_node/extract_docstring/NodeVisitor.get_children", "pydoctor.model.is_exception/defaultPostProcess"],
-    bounds={"quick": "two-statement programs: 17 statement kinds (def, async def, exception class with a mixin listed after the builtin exception, exception class through an intermediate class, classmethod, staticmethod, property, old-style staticmethod()/classmethod() wrapping, assignment, annotated assignment, annotation only, class, exception class, def nested in a def, tuple assignment, class with nested class) for each of the two statements x 8 wrappers of the first (plain, if, try, with, for, `if __name__ == '__main__'`, `if __name__ != '__main__'`, `if not (__name__ == '__main__')`) x 7 docstring layouts (none, one line, multi-line with relative indentation, leading blank line, trailing blanks, over-indented first text line, closing quotes deeper than the text) x module / class scope",
+    bounds={"quick": "two-statement programs: 19 statement kinds (def, async def, a method wrapped twice in the old style, a decorated static method wrapped again, exception class with a mixin listed after the builtin exception, exception class through an intermediate class, classmethod, staticmethod, property, old-style staticmethod()/classmethod() wrapping, assignment, annotated assignment, annotation only, class, exception class, def nested in a def, tuple assignment, class with nested class) for each of the two statements x 8 wrappers of the first (plain, if, try, with, for, `if __name__ == '__main__'`, `if __name__ != '__main__'`, `if not (__name__ == '__main__')`) x 7 docstring layouts (none, one line, multi-line with relative indentation, leading blank line, trailing blanks, over-indented first text line, closing quotes deeper than the text) x module / class scope",
             "thorough": "same"},
     outside="multi-module packages (C04/C07), metaclasses, __slots__, conditional redefinition (C02), except/finally bodies",
 )
